@@ -651,6 +651,14 @@ pub fn rekey(
     msk: &mut MasterSecretKey,
     rights: HashSet<Right>,
 ) -> Result<(), Error> {
+    // Check all rights before modifying the MSK, so that a failed re-keying
+    // does not leave it partially re-keyed.
+    if rights.iter().any(|r| !msk.secrets.contains_key(r)) {
+        return Err(Error::OperationNotPermitted(
+            "cannot re-key a right not belonging to the MSK".to_string(),
+        ));
+    }
+
     for r in rights {
         if msk.secrets.contains_key(&r) {
             // The new secret inherits the activation status of the one it
